@@ -196,6 +196,14 @@ def update_for_language(stmts, lang):
             if specific in item:
                 # XXX - maybe make sure clause does not already exist.
                 item[clause] = item[specific]
+            else:
+                # Remove a value left by an earlier call for another
+                # language (several libraries wrapped in one process).
+                for other in ["c", "cxx"]:
+                    ospecific = other + "_" + clause
+                    if ospecific in item and \
+                       item.get(clause) is item[ospecific]:
+                        del item[clause]
 
 
 def compute_stmt_permutations(out, parts):
